@@ -120,7 +120,11 @@ func solveObligation(c *Ctx, o *Obligation, idx int, opts solveOpts) {
 			return
 		}
 	}
-	r := runSolver("z3-new", []string{fmt.Sprintf("-T:%d", s1)}, z3file, stage1)
+	r := runSolver("z3-new", []string{fmt.Sprintf("-T:%d", s1), "smt.array.extensional=false"}, z3file, stage1)
+	if r.verdict != "unsat" {
+		// a "sat" without extensionality is not a counterexample; ask again in the full theory
+		r = runSolver("z3-new", []string{fmt.Sprintf("-T:%d", s1)}, z3file, stage1)
+	}
 	final := r
 	if r.verdict != "unsat" && r.verdict != "sat" && !o.Canary {
 		cvcfile := base + ".cvc5.smt2"
@@ -133,6 +137,7 @@ func solveObligation(c *Ctx, o *Obligation, idx int, opts solveOpts) {
 		cfgs := []cfg{
 			{"z3-new", []string{fmt.Sprintf("-T:%d", secs), "smt.random_seed=7"}, z3file},
 			{"z3-new", []string{fmt.Sprintf("-T:%d", secs), "smt.random_seed=13"}, z3file},
+			{"z3-new", []string{fmt.Sprintf("-T:%d", secs), "smt.random_seed=7", "smt.array.extensional=false"}, z3file},
 			{"cvc5", []string{fmt.Sprintf("--tlimit=%d", to.Milliseconds()), "--lang=smt2"}, cvcfile},
 		}
 		cfgs = append(cfgs, cfg{"z3-new", []string{fmt.Sprintf("-T:%d", secs), "smt.random_seed=42", "smt.qi.eager_threshold=50"}, z3file},
@@ -145,6 +150,9 @@ func solveObligation(c *Ctx, o *Obligation, idx int, opts solveOpts) {
 		}
 		for range cfgs {
 			rr := <-results
+			if rr.verdict == "sat" && strings.Contains(rr.solver, "extensional=false") {
+				continue // not a counterexample in the full theory
+			}
 			if rr.verdict == "unsat" || rr.verdict == "sat" {
 				final = rr
 				break
@@ -253,8 +261,13 @@ type job struct {
 // assertions are added in program order and each obligation is checked with push/pop at the point
 // where it was generated (it sees exactly the assertions made before it). With sliced=true every
 // quantified assumption is left out (sound: fewer hypotheses). Returns the verdict per obligation.
-func incrementalPass(c *Ctx, chunk []job, sliced bool, perCheckMs int, dir string, tag string) map[*Obligation]string {
+func incrementalPass(c *Ctx, chunk []job, sliced bool, noExt bool, perCheckMs int, dir string, tag string) map[*Obligation]string {
 	var sb strings.Builder
+	if noExt {
+		// array extensionality switched off: a weaker theory (every unsat answer stays valid), which keeps the
+		// array-ext witness indices from feeding the quantifier patterns over slice rows
+		sb.WriteString("(set-option :smt.array.extensional false)\n")
+	}
 	sb.WriteString(fmt.Sprintf("(set-option :timeout %d)\n(declare-sort Str 0)\n", perCheckMs))
 	for _, d := range c.decls {
 		sb.WriteString(d + "\n")
@@ -331,7 +344,7 @@ func solveAll(jobs []job, opts solveOpts, workers int) {
 		}
 		byCtx[j.c] = append(byCtx[j.c], j)
 	}
-	runPass := func(sliced bool, perCheckMs int, label string) {
+	runPass := func(sliced bool, noExt bool, perCheckMs int, label string) {
 		type task struct {
 			c     *Ctx
 			chunk []job
@@ -361,7 +374,7 @@ func solveAll(jobs []job, opts solveOpts, workers int) {
 				defer wg.Done()
 				for t := range ch {
 					t0 := time.Now()
-					res := incrementalPass(t.c, t.chunk, sliced, perCheckMs, opts.dir, t.tag)
+					res := incrementalPass(t.c, t.chunk, sliced, noExt, perCheckMs, opts.dir, t.tag)
 					per := time.Since(t0).Seconds() / float64(len(t.chunk))
 					for _, j := range t.chunk {
 						if res[j.o] == "unsat" {
@@ -381,9 +394,10 @@ func solveAll(jobs []job, opts solveOpts, workers int) {
 	}
 	if os.Getenv("GOVC_NOINC") == "" {
 		tp := time.Now()
-		runPass(false, 2500, "full")
+		runPass(false, true, 2500, "no-ext")
+		runPass(false, false, 2500, "full")
 		t1 := time.Since(tp).Seconds()
-		runPass(true, 1500, "qf-slice")
+		runPass(true, false, 1500, "qf-slice")
 		if os.Getenv("GOVC_TIMING") != "" {
 			fmt.Printf("timing: full pass %.1fs, qf-slice pass %.1fs\n", t1, time.Since(tp).Seconds()-t1)
 		}
